@@ -15,6 +15,7 @@ import shutil
 import subprocess
 import sys
 import tempfile
+import threading
 import time
 
 VERIF = os.path.dirname(os.path.dirname(os.path.abspath(__file__)))
@@ -508,12 +509,42 @@ def scratch_dir(prefix="jaxverif_"):
         shutil.rmtree(d, ignore_errors=True)
 
 
+class _ThreadStdout:
+    """sys.stdout proxy: text written by a thread that is capturing goes to that thread's buffer,
+    everything else to the real stdout (so capturing is safe when several threads print)"""
+
+    def __init__(self, real):
+        self._real = real
+        self._tl = threading.local()
+
+    def _stack(self):
+        st = getattr(self._tl, "stack", None)
+        if st is None:
+            st = self._tl.stack = []
+        return st
+
+    def write(self, text):
+        st = self._stack()
+        if st:
+            return st[-1].write(text)
+        return self._real.write(text)
+
+    def flush(self):
+        if not self._stack():
+            self._real.flush()
+
+    def __getattr__(self, name):
+        return getattr(self._real, name)
+
+
 @contextlib.contextmanager
 def capture_stdout():
+    if not isinstance(sys.stdout, _ThreadStdout):
+        sys.stdout = _ThreadStdout(sys.stdout)
+    proxy = sys.stdout
     buf = io.StringIO()
-    old = sys.stdout
-    sys.stdout = buf
+    proxy._stack().append(buf)
     try:
         yield buf
     finally:
-        sys.stdout = old
+        proxy._stack().pop()
